@@ -346,6 +346,8 @@ def run(ctx):
     wtests.run(ctx)
     install(ctx)
     rng = ctx.rng
+    from .. import longrun
+    _early_t, _early_d = longrun.Early(), longrun.Early()
     alphabet_sweep(ctx, rng)
     ctx.need("escape:alphabet sweep (every legal code point next to the specials)", 1300)
     ctx.need("escape:stand-in candidate (special character shifted into another block)", 30)
@@ -370,6 +372,8 @@ def run(ctx):
         ctx.case(["escape:" + cls], ("e", text), nontrivial=any(ch in text for ch in SPECIALS + "\t\n\r"))
         ctx.sample({"text": text}, tag="escape:" + cls, per_tag=1)
         drive_escape(ctx, text)
+        if len(text) < 200:
+            _early_t.remember(text)
     m = ctx.budget(60_000, 1_000_000)
     for _ in range(m):
         if not ctx.alive():
@@ -388,6 +392,14 @@ def run(ctx):
         ctx.case(["duration:" + cls], ("d", value, ms), nontrivial=value >= (10000 if ms else 10))
         ctx.sample({"duration": value, "milliseconds": ms}, tag="duration:" + cls, per_tag=1)
         drive_hms(ctx, value, ms)
+        _early_d.remember((value, ms))
+    # long memory: 100000+ distinct texts / durations (raw), then the first cases of the run once more
+    from plotink import text_utils as _tu2
+    longrun.churn_then_replay(ctx, _tu2, "xml_escape", lambda k: ("t%d<&>%d" % (k, k % 13),), _early_t,
+                              lambda t: drive_escape(ctx, t), n_quick=110_000, n_thorough=200_000)
+    longrun.churn_then_replay(ctx, _tu2, "format_hms", lambda k: (k * 0.37 + 0.001, bool(k % 2)), _early_d,
+                              lambda it: drive_hms(ctx, *it), n_quick=110_000, n_thorough=200_000)
+    ctx.need("history: asked again after 100000+ other distinct requests", 60)
     for cls in ("ascii", "single special amp", "single special lt", "single special gt",
                 "single special quot", "single special apos", "pre-escaped / markup-like",
                 "mixed quotes", "contains TAB/LF/CR", "mixed unicode", "empty", "long text with hundreds of specials"):
